@@ -303,7 +303,7 @@ def _c05_extra(tier, seed, native_run):
     others = [f for f in r['failures'] if not (kf and _f5a_region(f))]
     out['bounded_indexer_vs_numpy'] = {
         'note': 'BOUNDED stand-in (not counted in obligations): indexer(spec, src_shape, flat_src) against NumPy itself',
-        'bound': 'index grammar {int, -int, slices, 1-d int arrays/lists incl. negatives, tuples, Ellipsis, om.slicer} x shapes up to rank 3 / extent 3 x flat_src; array2slice over 4 dtypes',
+        'bound': 'index grammar {int, -int, slices, 1-d int arrays/lists incl. negatives, tuples, Ellipsis, om.slicer} x shapes up to rank 3 / extent 3 x flat_src; histories: one index object bound to a shape, used, re-bound (set_src_shape) to a second shape of the same rank vs a fresh object; array2slice over 4 dtypes',
         'evaluations': r['evaluations'], 'distinct_nontrivial': r['distinct_nontrivial'], 'exhaustive': True,
         'rejected_by_openmdao_not_compared': r.get('rejected_by_openmdao'), 'failures': r['n_failures'],
         'failures_in_known_region_F5a': len(in_region), 'samples': r['samples']}
